@@ -280,6 +280,13 @@ func (env *ExecEnv) expandParam(fields []*field, pe *ast.ParamExp, mode ExpMode)
 			a = []string{env.Args[1]}
 			null = env.Args[1] == ""
 		default:
+			if !quote && pe.Op == "" {
+				// outside double-quotes each positional parameter is
+				// a field of its own, also when IFS is null
+				a = make([]string, len(env.Args)-1)
+				copy(a, env.Args[1:])
+				break
+			}
 			var b strings.Builder
 			sep := env.ifs()
 			for i, s := range env.Args[1:] {
